@@ -8,6 +8,7 @@ pub mod c11;
 pub mod c12;
 pub mod c14;
 pub mod c15;
+pub mod c16;
 pub mod c19;
 pub mod c20;
 
@@ -26,10 +27,11 @@ pub fn parts_for(property: &str) -> Option<Vec<Box<dyn PartDyn>>> {
         "C12" => c12::parts(),
         "C14" => c14::parts(),
         "C15" => c15::parts(),
+        "C16" => c16::parts(),
         "C19" => c19::parts(),
         "C20" => c20::parts(),
         _ => return None,
     })
 }
 
-pub const ALL: &[&str] = &["C02", "C03", "C04", "C06", "C07", "C09", "C10", "C11", "C12", "C14", "C15", "C19", "C20"];
+pub const ALL: &[&str] = &["C02", "C03", "C04", "C06", "C07", "C09", "C10", "C11", "C12", "C14", "C15", "C16", "C19", "C20"];
